@@ -360,7 +360,9 @@ func mutateProof(r *rand.Rand, p merkle.Proof, other *merkle.Proof) (merkle.Proo
 	case 5:
 		if len(p.Aunts) > 0 {
 			a := p.Aunts[r.Intn(len(p.Aunts))]
-			a[r.Intn(len(a))] ^= 1 << uint(r.Intn(8))
+			if len(a) > 0 {
+				a[r.Intn(len(a))] ^= 1 << uint(r.Intn(8))
+			}
 		}
 		name = "aunt-flip"
 	case 6:
@@ -379,7 +381,9 @@ func mutateProof(r *rand.Rand, p merkle.Proof, other *merkle.Proof) (merkle.Proo
 	case 9:
 		if len(p.Aunts) > 0 {
 			i := r.Intn(len(p.Aunts))
-			p.Aunts[i] = p.Aunts[i][:r.Intn(32)]
+			if len(p.Aunts[i]) > 0 {
+				p.Aunts[i] = p.Aunts[i][:r.Intn(len(p.Aunts[i]))]
+			}
 		}
 		name = "aunt-short"
 	case 10:
